@@ -233,11 +233,6 @@ package ucfg
 
 //@ ghost func mvSpec(old value, v value) value
 
-//@ func fieldOptsOverride
-//@ trusted
-//@ pure
-//@ ensures result1 == nil ==> result0 != nil
-
 // mvSpec is the statement's value-merge table, defined over cfgEval (what a value evaluates to as a
 // sub-config; nil when it does not): B wins unless both sides evaluate to sub-configs, then A's node.
 //@ axiom [mv] forall o value :: forall x value :: o == nil ==> mvSpec(o, x) == x
@@ -834,3 +829,68 @@ package ucfg
 //@ loop 1 invariant forall k string :: visited(k) && (old(opts.configValueHandling) == cfgReplaceValue || !old(has(to.fields.d, k))) ==> copyOf(to.fields.d[k], mvSpec(nilv(), dict[k])) && fresh(to.fields.d[k]) && cctx(to.fields.d[k]).parent == subval(to) && cctx(to.fields.d[k]).field == k
 //@ loop 1 invariant forall k string :: visited(k) && old(opts.configValueHandling) != cfgReplaceValue && old(has(to.fields.d, k)) ==> copyOf(to.fields.d[k], mvSpec(old(to.fields.d[k]), dict[k])) && fresh(to.fields.d[k]) && cctx(to.fields.d[k]).parent == subval(to) && cctx(to.fields.d[k]).field == k
 //@ loop 1 invariant forall k string :: !visited(k) && old(opts.configValueHandling) != cfgReplaceValue && old(has(to.fields.d, k)) ==> to.fields.d[k] == old(to.fields.d[k])
+
+// ---------------------------------------------------------------- C16: per-field merge policies (trie view of the field-handling tree)
+
+// Trie view: childT(t, name, idx) is the sub-tree under a key (nil: none), hasPolicy/policyT the "*" entry of a
+// node. The two accessors below are the only readers of the underlying Config and are trusted to implement it.
+//@ ghost func childT(t *fieldHandlingTree, name string, idx int) *fieldHandlingTree
+//@ ghost func hasPolicy(t *fieldHandlingTree) bool
+//@ ghost func policyT(t *fieldHandlingTree) configHandling
+//@ ghost func fhOk(t *fieldHandlingTree, name string, idx int) bool
+//@ ghost func fhPol(t *fieldHandlingTree, name string, idx int) configHandling
+//@ ghost func fhChild(t *fieldHandlingTree, name string, idx int) *fieldHandlingTree
+//@ ghost func iwSpec(child *fieldHandlingTree, parent *fieldHandlingTree) *fieldHandlingTree
+
+//@ func (*fieldHandlingTree).child :: t, fieldName, idx -> r, err
+//@ trusted
+//@ pure
+//@ requires t != nil
+//@ ensures (err == nil) == (childT(t, fieldName, idx) != nil)
+//@ ensures r == childT(t, fieldName, idx)
+
+//@ func (*fieldHandlingTree).configHandling :: t, fieldName, idx -> r, err
+//@ trusted
+//@ pure
+//@ requires t != nil
+//@ ensures fieldName == "*" && idx == -1 ==> (err == nil) == hasPolicy(t)
+//@ ensures fieldName == "*" && idx == -1 && err == nil ==> r == policyT(t)
+
+//@ func (*fieldHandlingTree).wildcard :: t -> r, err
+//@ props C16
+//@ pure
+//@ requires t != nil
+//@ ensures [spec] (err == nil) == (childT(t, "**", -1) != nil) && r == childT(t, "**", -1)
+
+// The lookup of the statement, as a recursive specification over the trie view: an exact child that carries a
+// policy wins; otherwise the lookup continues below the "**" wildcard; otherwise there is no named policy here.
+//@ axiom [fh] forall t *fieldHandlingTree :: forall n string :: forall i int :: childT(t, n, i) != nil && hasPolicy(childT(t, n, i)) ==> fhOk(t, n, i) && fhPol(t, n, i) == policyT(childT(t, n, i)) && fhChild(t, n, i) == childT(t, n, i)
+//@ axiom [fh] forall t *fieldHandlingTree :: forall n string :: forall i int :: !(childT(t, n, i) != nil && hasPolicy(childT(t, n, i))) && childT(t, "**", -1) == nil ==> !fhOk(t, n, i) && fhPol(t, n, i) == cfgDefaultHandling && fhChild(t, n, i) == childT(t, n, i)
+//@ axiom [fh] forall t *fieldHandlingTree :: forall n string :: forall i int :: !(childT(t, n, i) != nil && hasPolicy(childT(t, n, i))) && childT(t, "**", -1) != nil && fhOk(childT(t, "**", -1), n, i) ==> fhOk(t, n, i) && fhPol(t, n, i) == fhPol(childT(t, "**", -1), n, i) && fhChild(t, n, i) == fhChild(childT(t, "**", -1), n, i)
+//@ axiom [fh] forall t *fieldHandlingTree :: forall n string :: forall i int :: !(childT(t, n, i) != nil && hasPolicy(childT(t, n, i))) && childT(t, "**", -1) != nil && !fhOk(childT(t, "**", -1), n, i) ==> !fhOk(t, n, i) && fhPol(t, n, i) == cfgDefaultHandling && fhChild(t, n, i) == childT(t, n, i)
+
+//@ func (*fieldHandlingTree).fieldHandling :: t, fieldName, idx -> h, c, ok
+//@ props C16
+//@ uses fh
+//@ pure
+//@ requires t != nil
+//@ ensures [spec] ok == fhOk(t, fieldName, idx) && h == fhPol(t, fieldName, idx) && c == fhChild(t, fieldName, idx)
+
+//@ func includeWildcard :: child, parent -> r, err
+//@ trusted
+//@ pure
+//@ ensures err == nil ==> r == iwSpec(child, parent)
+//@ ensures parent == nil ==> err == nil && r == child
+//@ ensures err != nil ==> r == nil
+
+//@ func fieldOptsOverride :: opts, fieldName, idx -> r, err
+//@ props C16
+//@ pure
+//@ requires opts != nil
+//@ ensures [err] err == nil ==> r != nil
+//@ ensures [no_tree] opts.fieldHandlingTree == nil ==> err == nil && r == opts
+//@ ensures [named_policy] opts.fieldHandlingTree != nil && err == nil && fhOk(opts.fieldHandlingTree, fieldName, idx) ==> r.configValueHandling == fhPol(opts.fieldHandlingTree, fieldName, idx) && r.fieldHandlingTree == iwSpec(fhChild(opts.fieldHandlingTree, fieldName, idx), opts.fieldHandlingTree)
+//@ ensures [unnamed_policy] opts.fieldHandlingTree != nil && err == nil && !fhOk(opts.fieldHandlingTree, fieldName, idx) ==> r.configValueHandling == opts.configValueHandling
+//@ ensures [unnamed_subtree] opts.fieldHandlingTree != nil && err == nil && !fhOk(opts.fieldHandlingTree, fieldName, idx) ==> r.fieldHandlingTree == iwSpec(fhChild(opts.fieldHandlingTree, fieldName, idx), opts.fieldHandlingTree)
+//@ ensures [others] err == nil ==> r.maxIdx == opts.maxIdx && r.pathSep == opts.pathSep && r.enableNumKeys == opts.enableNumKeys && r.varexp == opts.varexp && r.meta == opts.meta
+//@ ensures [fresh_or_same] err == nil ==> r == opts || fresh(r)
